@@ -144,8 +144,9 @@ class StateMachine(metaclass=StateMachineMetaclass):
 
         self._listeners: Dict[Any, Any] = {}
 
-        self._register_callbacks([])
-        self.add_listener(*listeners.keys())
+        # Listeners are registered together with the machine and the model, as the constructor
+        # does: a callback name may be provided only by a listener.
+        self._register_callbacks(list(listeners.keys()))
         self._engine = self._get_engine(rtc)
 
     def _get_initial_state(self):
